@@ -9,7 +9,8 @@ Streams:
   * random edit distance algo vs spec (lengths <= 7, the spec recursion is exponential);
   * BLEU per-sentence statistics: implementation (_bleu_score_update) vs algo (Counter model) vs
     spec (clipped n-gram counts, closest reference length);
-  * BLEU functional on corpora that are too short for n_gram (both sides must raise).
+  * BLEU functional on corpora that are too short for n_gram (both sides must raise);
+  * BLEU with zero weights vs the product form bp * prod p_i^w_i (known finding: 0 * log 0 = nan).
 """
 import itertools
 from .. import core, streams
@@ -124,6 +125,12 @@ def bleu_stats_stream(ctx):
         s.count("n_gram:%d" % n)
         s.count("refs:%d" % len(refs))
         s.count("overlap" if overlap else "empty-overlap")
+        lens = sorted({len(r) for r in refs})
+        if any(abs(x - len(cand)) == abs(y - len(cand)) for x in lens for y in lens if x < y):
+            s.count("reference-length-tie")
+        uni = {t: cand.count(t) for t in set(cand)}
+        if any(c > max(r.count(t) for r in refs) > 0 for t, c in uni.items()):
+            s.count("clipping-binds")
         if not (algo == spec == impl and il == len(cand)) and bad is None:
             bad = {"n_gram": n, "cand": cand, "refs": refs, "impl": impl, "algo": algo, "spec": spec}
             s.mismatches.append(bad)
@@ -179,6 +186,73 @@ def bleu_short_stream(ctx):
                                                       "broken": "tie:bleu-too-short-boundary:bleu_score"})
 
 
+FINDING_ZERO_WEIGHT = "C08-bleu-zero-weight-nan"
+
+
+def _bleu_product_form(ws, il, tl, ms, ps):
+    """bp * prod_i p_i^{w_i} evaluated with mpmath; 0^0 = 1, 0^w = 0 for w > 0 (weights >= 0 only)."""
+    import mpmath
+    mpmath.mp.prec = 200
+    bp = mpmath.mpf(1) if il > tl else mpmath.exp(1 - mpmath.mpf(tl) / mpmath.mpf(il))
+    v = bp
+    for w, m, p in zip(ws, ms, ps):
+        if m == 0:
+            v = v * (1 if w == 0 else 0)
+        else:
+            v = v * (mpmath.mpf(m) / mpmath.mpf(p)) ** (mpmath.mpf(w.numerator) / mpmath.mpf(w.denominator))
+    return v
+
+
+def bleu_zero_weight_stream(ctx):
+    """BLEU with some weights equal to zero against the product form  bp * prod_i p_i^{w_i}.
+    The implementation computes exp(sum_i w_i log p_i): a zero weight on an order without matches
+    gives 0 * (-inf) = nan (known finding, matched ONLY on that pattern)."""
+    import math
+    from torcheval.metrics.functional.text.bleu import _bleu_score_update
+    s = ctx.stream("bleu-zero-weights vs product form (implementation only)")
+    e = entry("BLEUScore")
+    cfgs = [{"n_gram": 2, "weights": [TX.F(1), TX.F(0)]}, {"n_gram": 2, "weights": [TX.F(0), TX.F(1)]},
+            {"n_gram": 3, "weights": [TX.F(1, 2), TX.F(1, 2), TX.F(0)]},
+            {"n_gram": 4, "weights": [TX.F(1, 2), TX.F(1, 2), TX.F(0), TX.F(0)]},
+            {"n_gram": 2, "weights": [TX.F(1, 2), TX.F(1, 2)]}]
+    unexplained = None
+    seen_known = False
+    for k in range(ctx.n(100, 1000)):
+        cfg = cfgs[k % len(cfgs)]
+        b = e.gen_batch(ctx.rng, cfg, ctx.rng.choice([1, 1, 2, 3]))
+        a, _ = e.args(cfg, b)
+        il, tl, ms, ps = _bleu_score_update(a[0], a[1], cfg["n_gram"])
+        il, tl, ms, ps = int(il), int(tl), [int(x) for x in ms.tolist()], [int(x) for x in ps.tolist()]
+        ref = _bleu_product_form(cfg["weights"], il, tl, ms, ps)
+        fn = float(e.functional(cfg, b))
+        m = e.make(cfg)
+        e.update(m, cfg, b)
+        cl = float(m.compute())
+        pattern = any(w == 0 and x == 0 for w, x in zip(cfg["weights"], ms))
+        s.case((repr(cfg), repr(b)), sum(ms) > 0, sample={"cfg": cfg, "batch": b, "matches": ms, "possible": ps})
+        s.count("zero-weight-on-zero-precision" if pattern else "regular")
+        for route, val in (("functional", fn), ("class", cl)):
+            ok = (not math.isnan(val)) and abs(val - float(ref)) <= 2e-5
+            if ok:
+                continue
+            s.count("nan:" + route if math.isnan(val) else "differs:" + route)
+            detail = {"check": "bleu vs product form", "route": route, "cfg": cfg, "batch": b, "args": list(a),
+                      "matches": ms, "possible": ps, "input_len": il, "target_len": tl,
+                      "observed": repr(val), "expected": float(ref), "broken": "tie:bleu-zero-weights:BLEUScore"}
+            if math.isnan(val) and pattern:
+                if not seen_known:
+                    seen_known = True
+                    s.mismatches.append(detail)
+                    ctx.violation("failing-input", "BLEUScore", detail, finding_id=FINDING_ZERO_WEIGHT)
+            elif unexplained is None:
+                unexplained = detail
+                s.mismatches.append(detail)
+                ctx.violation("failing-input", "BLEUScore", detail)
+    ctx.oblige("tie:bleu-zero-weights:BLEUScore", unexplained is None and not seen_known,
+               detail=("known finding %s reproduced; " % FINDING_ZERO_WEIGHT if seen_known else "")
+               + (repr(core.canon(unexplained))[:600] if unexplained else ""))
+
+
 def run(ctx):
     ents = _ents()
     streams.hist_corr(ctx, ents=ents, name="history-correspondence:text", nhist=ctx.n(24, 200))
@@ -186,3 +260,4 @@ def run(ctx):
     edit_distance_streams(ctx)
     bleu_stats_stream(ctx)
     bleu_short_stream(ctx)
+    bleu_zero_weight_stream(ctx)
